@@ -409,7 +409,9 @@ ReadNextPart:
 			return fmt.Errorf("failed to get content-type from part")
 		}
 		contentType, optional := parseMultiPartHeader(multiPartContentType[0])
-		if strings.EqualFold(contentType, TypeMultipartRelated.String()) {
+		if strings.EqualFold(contentType, TypeMultipartRelated.String()) ||
+			strings.EqualFold(contentType, TypeMultipartAlternative.String()) {
+			// The nested multipart has been handled above already, it is not a body part itself
 			goto ReadNextPart
 		}
 		part := msg.newPart(ContentType(contentType))
